@@ -22,5 +22,17 @@ TAGS=verif
 [ "$FLAVOUR" = seam ] && TAGS="verif,verifseam"
 RFLAG=""
 [ "$RACE" = race ] && RFLAG="-race"
+# HTTP front-end: an add-only overlay file exposes the echo router of a server object.
+# If the tree's http package has changed shape so that the overlay does not compile,
+# build without it (the HTTP workloads then report themselves unavailable).
+OVL="$SCR/repo/props/modules/http/builtin/verif_export.go"
+if [ -d "$SCR/repo/props/modules/http/builtin" ]; then
+  cp "$VERIF_DIR/sim/overlay/http_verif_export.go.txt" "$OVL"
+  if ( cd "$SCR/sim" && go build -trimpath $RFLAG -tags "$TAGS,verifhttp" -o "$SCR/simworker" ./cmd/simworker ) >"$SCR/build.log" 2>&1; then
+    exit 0
+  fi
+  echo "build.sh: HTTP overlay did not build; retrying without it" >&2
+  rm -f "$OVL"
+fi
 ( cd "$SCR/sim" && go build -trimpath $RFLAG -tags "$TAGS" -o "$SCR/simworker" ./cmd/simworker ) >"$SCR/build.log" 2>&1 || { cat "$SCR/build.log" >&2; echo "INFRA: build failed" >&2; exit 2; }
 exit 0
